@@ -73,6 +73,8 @@ U5 == TUnion(Nm(85, 5), <<TU64, TString>>, UKeyed(<<<<117>>, <<115>>>>))
 \* structs whose fields are ALL optional (map representation: the empty map is an inhabitant); one field, two fields
 S9 == TStruct(Nm(83, 9), <<Field(fa, TInt, TRUE, FALSE), Field(fb, TString, TRUE, TRUE)>>, RMap(<<>>))
 V1 == TStruct(Nm(86, 1), <<Field(fa, TString, TRUE, FALSE)>>, RMap(<<<<120>>>>))
+\* ... and with tuple representation: the empty LIST is an inhabitant's representation
+V2 == TStruct(Nm(86, 2), <<Field(fa, TInt, TRUE, FALSE)>>, RTuple)
 \* a small kinded union with a recursive (struct) member, as list element and as map value: the SAME member kind occurs
 \* twice in one container (the parent's value assembler is reused); a stringprefix union as map value
 U6 == TUnion(Nm(85, 6), <<TInt, S1>>, UKinded)
@@ -83,7 +85,7 @@ M5 == TMap(Nm(77, 5), U3, FALSE)
 M6 == TMap(Nm(77, 6), U7, FALSE)
 
 Types == <<S1, S2, S3, S4, S5, L1, L2, M1, U1, U2, U3, E1, E2, M2, R1, R2, R3, R4, R5, R6, R7, R8, R9, S6, S7, U4,
-           R10, R11, R12, R13, W1, S8, M3, U5, S9, V1, U6, L3, M4, M5, M6>>
+           R10, R11, R12, R13, W1, S8, M3, U5, S9, V1, U6, L3, M4, M5, M6, V2>>
 
 \* ---- inhabitants (typed values in canonical type-level form)
 IntVals == {Scalar("int", <<0, 1>>), Scalar("int", <<0, 2>>)}
